@@ -295,6 +295,10 @@ func (h *Range) Unmarshal(v base.HeaderValue) error {
 	for k, v := range kvs {
 		switch k {
 		case "smpte":
+			if specFound {
+				return fmt.Errorf("range provided multiple times (%v)", v)
+			}
+
 			s := &RangeSMPTE{}
 			err = rangeValueUnmarshal(s, v)
 			if err != nil {
@@ -305,6 +309,10 @@ func (h *Range) Unmarshal(v base.HeaderValue) error {
 			h.Value = s
 
 		case "npt":
+			if specFound {
+				return fmt.Errorf("range provided multiple times (%v)", v)
+			}
+
 			s := &RangeNPT{}
 			err = rangeValueUnmarshal(s, v)
 			if err != nil {
@@ -315,6 +323,10 @@ func (h *Range) Unmarshal(v base.HeaderValue) error {
 			h.Value = s
 
 		case "clock":
+			if specFound {
+				return fmt.Errorf("range provided multiple times (%v)", v)
+			}
+
 			s := &RangeUTC{}
 			err = rangeValueUnmarshal(s, v)
 			if err != nil {
